@@ -487,6 +487,14 @@ parse_next_record_header:
                 }
                 /* All other non-zero return value results in reply message.
                  * Either handshake message or alert */
+                if (rc > SSL_FULL && ssl->err == SSL_ALERT_NONE)
+                {
+                    /* A failure code of a parser (not one of the decoder's
+                       own signals, which are <= SSL_FULL) that forgot to
+                       choose an alert: never take it for 'send the next
+                       flight' - same safety net as in the TLS 1.2 decoder. */
+                    ssl->err = SSL_ALERT_INTERNAL_ERROR;
+                }
                 goto encodeResponse;
             }
 	    /* If we got a parse return of >= 0 but p did not move forward
